@@ -51,6 +51,7 @@ func (l *IPFSLog) Len() int {
 }
 
 func (l *IPFSLog) RawHeads() iface.IPFSLogOrderedEntries {
+	verifBeforeLock(l, false, "RawHeads")
 	l.lock.RLock()
 	heads := l.heads
 	l.lock.RUnlock()
@@ -176,6 +177,7 @@ func NewLog(services coreiface.CoreAPI, identity *identityprovider.Identity, opt
 }
 
 func (l *IPFSLog) SetIdentity(identity *identityprovider.Identity) {
+	verifBeforeLock(l, true, "SetIdentity")
 	l.lock.Lock()
 	defer l.lock.Unlock()
 
@@ -282,6 +284,7 @@ func getEveryPow2(all iface.IPFSLogOrderedEntries, maxDistance int) []Entry {
 }
 
 func (l *IPFSLog) Get(c cid.Cid) (Entry, bool) {
+	verifBeforeLock(l, false, "Get")
 	l.lock.RLock()
 	defer l.lock.RUnlock()
 
@@ -289,6 +292,7 @@ func (l *IPFSLog) Get(c cid.Cid) (Entry, bool) {
 }
 
 func (l *IPFSLog) Has(c cid.Cid) bool {
+	verifBeforeLock(l, false, "Has")
 	l.lock.RLock()
 	defer l.lock.RUnlock()
 
@@ -301,6 +305,7 @@ func (l *IPFSLog) Has(c cid.Cid) bool {
 //
 // payload is the data that will be in the Entry
 func (l *IPFSLog) Append(ctx context.Context, payload []byte, opts *AppendOptions) (iface.IPFSLogEntry, error) {
+	verifBeforeLock(l, true, "Append")
 	l.lock.Lock()
 	defer l.lock.Unlock()
 
@@ -382,6 +387,8 @@ func (l *IPFSLog) Append(ctx context.Context, payload []byte, opts *AppendOption
 		return nil, errmsg.ErrLogAppendFailed.Wrap(err)
 	}
 
+	verifYield("Append:created")
+
 	if err := l.AccessController.CanAppend(e, l.Identity.Provider, &CanAppendContext{log: l}); err != nil {
 		return nil, errmsg.ErrLogAppendDenied.Wrap(err)
 	}
@@ -391,6 +398,8 @@ func (l *IPFSLog) Append(ctx context.Context, payload []byte, opts *AppendOption
 	for _, nextEntryCid := range next {
 		l.Next.Set(nextEntryCid.String(), e)
 	}
+
+	verifYield("Append:indexed")
 
 	l.heads = entry.NewOrderedMapFromEntries([]iface.IPFSLogEntry{e})
 
@@ -430,6 +439,7 @@ func (l *IPFSLog) Iterator(options *IteratorOptions, output chan<- iface.IPFSLog
 		amount = *options.Amount
 	}
 
+	verifBeforeLock(l, false, "Iterator")
 	l.lock.RLock()
 	start := l.sortedHeads(l.heads.Slice()).Slice()
 
@@ -524,6 +534,7 @@ func (l *IPFSLog) Join(otherLog iface.IPFSLog, size int) (iface.IPFSLog, error) 
 		return l, nil
 	}
 
+	verifBeforeLock(l, true, "Join")
 	l.lock.Lock()
 	defer l.lock.Unlock()
 
@@ -561,6 +572,8 @@ func (l *IPFSLog) Join(otherLog iface.IPFSLog, size int) (iface.IPFSLog, error) 
 		return nil, errmsg.ErrLogJoinFailed.Wrap(err)
 	}
 
+	verifYield("Join:validated")
+
 	for _, k := range newItems.Keys() {
 		e := newItems.UnsafeGet(k)
 		for _, next := range e.GetNext() {
@@ -569,6 +582,8 @@ func (l *IPFSLog) Join(otherLog iface.IPFSLog, size int) (iface.IPFSLog, error) 
 
 		l.Entries.Set(e.GetHash().String(), e)
 	}
+
+	verifYield("Join:indexed")
 
 	nextsFromNewItems := map[string]struct{}{}
 	for _, k := range newItems.Keys() {
@@ -593,6 +608,8 @@ func (l *IPFSLog) Join(otherLog iface.IPFSLog, size int) (iface.IPFSLog, error) 
 	}
 
 	l.heads = entry.NewOrderedMapFromEntries(mergedHeads)
+
+	verifYield("Join:heads-set")
 
 	if size > -1 {
 		tmp := l.values().Slice()
@@ -694,6 +711,7 @@ func (l *IPFSLog) ToString(payloadMapper func(iface.IPFSLogEntry) string) string
 
 // ToSnapshot exports a Snapshot-able version of the log
 func (l *IPFSLog) ToSnapshot() *Snapshot {
+	verifBeforeLock(l, false, "ToSnapshot")
 	l.lock.RLock()
 	defer l.lock.RUnlock()
 
@@ -933,6 +951,7 @@ func NewFromEntry(ctx context.Context, services coreiface.CoreAPI, identity *ide
 //
 // The values are in linearized order according to their Lamport clocks
 func (l *IPFSLog) Values() iface.IPFSLogOrderedEntries {
+	verifBeforeLock(l, false, "Values")
 	l.lock.RLock()
 	defer l.lock.RUnlock()
 
@@ -955,6 +974,7 @@ func (l *IPFSLog) values() iface.IPFSLogOrderedEntries {
 
 // ToJSON Returns a log in a JSON serializable structure
 func (l *IPFSLog) ToJSONLog() *iface.JSONLog {
+	verifBeforeLock(l, false, "ToJSONLog")
 	l.lock.RLock()
 	heads := l.heads
 	l.lock.RUnlock()
@@ -978,6 +998,7 @@ func (l *IPFSLog) GetID() string {
 }
 
 func (l *IPFSLog) GetEntries() iface.IPFSLogOrderedEntries {
+	verifBeforeLock(l, false, "GetEntries")
 	l.lock.RLock()
 	defer l.lock.RUnlock()
 
@@ -988,6 +1009,7 @@ func (l *IPFSLog) GetEntries() iface.IPFSLogOrderedEntries {
 //
 // Heads are the entries that are not referenced by other entries in the log
 func (l *IPFSLog) Heads() iface.IPFSLogOrderedEntries {
+	verifBeforeLock(l, false, "Heads")
 	l.lock.RLock()
 	heads := l.heads.Slice()
 	l.lock.RUnlock()
